@@ -516,10 +516,20 @@ class ResultQuantifier(CanBehaveLikeAVariable[T], ABC):
         This is the exposed evaluation method for users.
         """
         # a new top-level evaluation starts from a clean slate: evaluating a (rule) query again gives the same answers
-        nodes = list(self._descendants_)
-        # selected variables are not nodes below the query descriptor
-        for variable in self._all_variable_instances_:
-            nodes.extend(variable._all_nodes_)
+        # selected expressions are not nodes below their query descriptor, and a selected (nested) query hides its own
+        # selected variables in the same way: follow both kinds of links until nothing new turns up
+        nodes = []
+        pending = [self]
+        seen = set()
+        while pending:
+            node = pending.pop()
+            if id(node) in seen:
+                continue
+            seen.add(id(node))
+            nodes.append(node)
+            pending.extend(node._descendants_)
+            pending.extend(node._all_variable_instances_)
+        nodes = nodes[1:]  # without this query itself
         for node in nodes:
             node._forget_evaluation_memory_()
         # after the variables have let go of what they had cached
